@@ -82,7 +82,9 @@ def projects(draw: Any) -> Dict[str, Any]:
             'class ISeek(Interface):\n    def close():\n        """close of ISeek"""\n'
             'class IBuf(Interface):\n    def close():\n        """close of IBuf"""\n'
             '@implementer(IReader)\nclass R:\n    pass\n@implementer(IWriter)\nclass W:\n    pass\n@implementer(ISeek, IBuf)\nclass S:\n    pass\n'
-            'class Stream(R, W, S):\n    """inherits four interfaces"""\n    def close(self):\n        pass\n    def read(self):\n        pass\n')
+            'class Stream(R, W, S):\n    """inherits four interfaces"""\n    def close(self):\n        pass\n    def read(self):\n        pass\n'
+            'class Stream2(S):\n    """inherits two interfaces from one base"""\n    def close(self):\n        pass\n'
+            '@implementer(IWriter, IReader, IBuf)\nclass Tri:\n    pass\nclass Stream3(Tri):\n    def close(self):\n        pass\n')
     if f['star_reexport']:
         # several names brought in by one star import of a module without __all__ and re-exported together: the order in which
         # they are moved must not depend on the iteration order of a set
